@@ -192,6 +192,13 @@ func (p *pipeConn) WaitHeld(n int, d time.Duration) bool {
 	return p.waitCond(d, func() bool { return p.held >= n })
 }
 
+// Held: writes currently held back
+func (p *pipeConn) Held() int {
+	p.mu.Lock()
+	defer p.mu.Unlock()
+	return p.held
+}
+
 func (p *pipeConn) Writes() [][]byte {
 	p.mu.Lock()
 	defer p.mu.Unlock()
